@@ -28,11 +28,15 @@ def run(ctx):
             lib = rec.library_lines()
             if lib:
                 nontriv += 1
+            # use_stdin: False = --file; True = the file opened as standard input; "pipe" = a pipe written the way a live source
+            # writes: a first odd-sized chunk, a pause (so that the reader's read() returns in the middle of a sample), then the rest
+            # in odd-sized chunks
             variants = [([], None, False), (["-v"], None, False), ([], ["sh", "-c", "cat >/dev/null"], False), ([], None, True),
                         (["-vv"], ["sh", "-c", "cat >/dev/null"], False), (["--quiet"], None, False),
-                        (["-vvv"], ["sh", "-c", "cat >/dev/null"], True), (["--quiet"], ["sh", "-c", "cat >/dev/null"], False)]
+                        (["-vvv"], ["sh", "-c", "cat >/dev/null"], True), (["--quiet"], ["sh", "-c", "cat >/dev/null"], False),
+                        ([], None, "pipe"), ([], ["sh", "-c", "cat >/dev/null"], "pipe")]
             if q:
-                variants = [variants[k] for k in sorted(set([0, 2, 5, (i % 8), ((i * 3 + 1) % 8)]))]
+                variants = [variants[k] for k in sorted(set([0, 2, 5, 8, (i % 10), ((i * 3 + 1) % 10)]))]
             for extra, child, use_stdin in variants:
                 quiet = "--quiet" in extra
                 mlines, mspawns, raw = rec.model(1 if quiet else 0, 1 if child else 0)
@@ -43,9 +47,13 @@ def run(ctx):
                     ctx.violation("correspondence", "App model prints %s but the library decodes %s" % (mlines, want), {"input": rec.line})
                 else:
                     model_ok += 1
-                r = sdlib.run_samedec(rec, extra=extra, child=child, use_stdin=use_stdin)
+                if use_stdin == "pipe":
+                    first = 2 * rng.range(100, 3000) + 1
+                    r = sdlib.run_samedec_chunked(rec, [(first, 0.25), (4097, 0), (8191, 0.02), (16385, 0)], extra=extra, child=child)
+                else:
+                    r = sdlib.run_samedec(rec, extra=extra, child=child, use_stdin=use_stdin)
                 runs += 1
-                key = " ".join(extra) + (" child" if child else "") + (" stdin" if use_stdin else "")
+                key = " ".join(extra) + (" child" if child else "") + (" stdin-pipe-odd-chunks" if use_stdin == "pipe" else " stdin" if use_stdin else "")
                 dist[key] = dist.get(key, 0) + 1
                 if r["hang"] or r["rc"] != 0 or r["stdout"] != want:
                     ctx.violation("property", "samedec %s printed %s (exit %s%s); the library decodes %s from the same samples [%s]"
@@ -59,7 +67,7 @@ def run(ctx):
     ctx.coverage.update({
         "evaluations": runs, "distinct_nontrivial": nontriv,
         "rule": "recordings of 0..4 transmissions (loss masks, header directly after header, close-cut or padded end, odd trailing byte) "
-                "at 8000..22050 Hz; each run of the binary under one of 8 option/child/stdin variants; non-trivial recording = the "
+                "at 8000..48000 Hz; each run of the binary under one of 10 option/child/input variants (--file, file as stdin, pipe written in odd-sized chunks with a pause); non-trivial recording = the "
                 "library decodes at least one message. stdout of the binary == extracted App model == library decode of the same samples.",
         "samples": samples, "samedec_runs_ok": ok, "variants": dist, "recordings": nrec, "model_equals_library": model_ok,
         "traces_validated_against_impl": ok,
